@@ -234,3 +234,41 @@ def generate_column(pid: str, res, items: list, edges: str, lookups: bool = Fals
         if prob:
             vs.append(divergence(pid, op, prob, dict(rep, impl=im, impl_lookups=x.get('_lookups'), generated=g)))
     return vs
+
+def generate_measure(cases: list, edges: str = 'set') -> dict:
+    """seeded-defect experiment (tools/genexec_seeded.py) for the generation checks: `cases` = [(spec, inst, churn_seed | None,
+    member_p)]; implementation (possibly mutated) vs hand model (`gen`) vs regenerated code (`gen_generate`)"""
+    import random
+    from .langgen import lang_payload, inst_payload
+    from .genrun import impl_generate, model_nodes_canon
+    st = {'cases': 0, 'impl_ne_hand': 0, 'gen_follows_impl': 0, 'gen_ne_impl': 0, 'impl_crash': 0, 'skipped_large': 0, 'examples': []}
+    hand = run_driver([{'op': 'gen', 'case': i, 'lang': lang_payload(s), 'inst': inst_payload(m)} for i, (s, m, _, _) in enumerate(cases)])
+    ims = []
+    for s, m, cs, mp in cases:
+        try: ims.append(impl_generate(s, m, churn=None if cs is None else random.Random(cs), member_p=mp))
+        except BaseException as e: ims.append({'crash': type(e).__name__})
+    todo = [i for i, im in enumerate(ims) if 'crash' not in im and ('error' in im or len(im['edges']) <= MAX_EDGES)]
+    gen = dict(zip(todo, run_driver([generate_payload(i, lang_payload(cases[i][0]), inst_payload(cases[i][1])) for i in todo])))
+    for i, (s, m, cs, mp) in enumerate(cases):
+        st['cases'] += 1
+        im = ims[i]
+        if 'crash' in im: st['impl_crash'] += 1; st['examples'].append(['impl-crash', im['crash']]); continue
+        if i not in gen: st['skipped_large'] += 1; continue
+        if 'error' in hand[i] or 'error' in gen[i]:
+            st['examples'].append(['driver-error', [hand[i].get('error'), gen[i].get('error')]]); continue
+        mo, g = hand[i]['model'], gen[i]['model']
+        if 'error' in mo or 'error' in im: hsame = mo.get('error') == im.get('error')
+        else:
+            hsame = model_nodes_canon(mo['nodes']) == im['nodes'] and set(map(tuple, mo['edges'])) == set(map(tuple, im['edges'])) \
+                    and set(map(tuple, im['edges'])) == set(map(tuple, im.get('parent_edges', im['edges'])))
+            if edges == 'exact': hsame = hsame and sorted(map(tuple, mo['edges'])) == sorted(map(tuple, im['edges']))
+        prob, _ = generate_cmp(g, im, edges=edges)
+        if prob:
+            st['gen_ne_impl'] += 1; st['examples'].append(['gen!=impl', {'spec': s, 'inst': m, 'churn_seed': cs, 'what': prob}])
+        if not hsame:
+            st['impl_ne_hand'] += 1
+            if not prob:
+                st['gen_follows_impl'] += 1
+                st['examples'].append(['gen=impl!=hand', {'impl_error': im.get('error'), 'hand_error': mo.get('error'),
+                                                          'n_edges': [len(im.get('edges', [])), len(mo.get('edges', []))]}])
+    return st
